@@ -181,6 +181,10 @@ class BoundMethod:
         return f"<bound {self.name} of {self.recv!r}>"
 
 
+_OPERATOR_BINOPS = {"mul": ast.Mult, "add": ast.Add, "sub": ast.Sub, "truediv": ast.Div, "floordiv": ast.FloorDiv, "mod": ast.Mod, "pow": ast.Pow,
+                    "or_": ast.BitOr, "and_": ast.BitAnd, "xor": ast.BitXor, "matmul": ast.MatMult}
+
+
 class PartialV:
     """functools.partial / operator.itemgetter-like callables."""
 
@@ -356,9 +360,23 @@ class Evaluator:
         if body is not None or not hasattr(fi, "all_param_names"):
             return args
         names = fi.all_param_names()
-        if set(args) <= set(names) or len(args) != len(names):
+        if not (set(args) <= set(names)) and len(args) == len(names):
+            args = dict(zip(names, args.values()))
+        # keywords the harness hands over through the function's **kwargs entry bind the way Python binds keywords:
+        # to an explicit parameter of that name if the function has one, else they stay in **kwargs
+        try:
+            pos, va, ko, kwname = fi.params
+        except Exception:
             return args
-        return dict(zip(names, args.values()))
+        if kwname and isinstance(args.get(kwname), dict):
+            explicit = [n for n in list(pos) + list(ko) if n in args[kwname] and n not in args]
+            if explicit:
+                args = dict(args)
+                rest = dict(args[kwname])
+                for n in explicit:
+                    args[n] = rest.pop(n)
+                args[kwname] = rest
+        return args
 
     def decide(self, node, env) -> bool:
         """Truth of a TOP condition: replay the prefix, then take True and queue False."""
@@ -1360,6 +1378,13 @@ class Evaluator:
                 if not args or not isinstance(args[0], str):
                     raise Unmodelled("re.compile of a non-constant pattern", node)
                 return Obj("RePattern", "pattern", (), {"pattern": args[0], "flags": args[1] if len(args) > 1 else kwargs.get("flags", 0), "__bool__": True})
+            if f.path.startswith("operator.") and f.path.split(".")[1] in _OPERATOR_BINOPS and len(args) == 2 and not kwargs:
+                return self.binop(_OPERATOR_BINOPS[f.path.split(".")[1]](), args[0], args[1], node)
+            if f.path in ("operator.neg", "operator.pos") and len(args) == 1:
+                v = args[0]
+                if f.path.endswith("pos"):
+                    return v
+                return v.with_eff(("neg",)) if isinstance(v, Obj) else self.binop(ast.Mult(), -1, v, node)
             if f.path == "functools.partial":
                 if not args:
                     raise Raised("TypeError", node)
@@ -1422,6 +1447,14 @@ class Evaluator:
                         self.events.append(("set-order-consumed", f.path, node))
                     flat.extend(self.iterate(sub, node))
                 return _Iter(flat)
+            if f.path in ("math.prod", "numpy.prod") and f.path == "math.prod":
+                items = args[0]
+                if items is TOP or isinstance(items, Obj):
+                    return TOP
+                acc = kwargs.get("start", 1)
+                for x in self.iterate(items, node):
+                    acc = x if (isinstance(acc, int) and acc == 1 and not isinstance(acc, bool)) else self.binop(ast.Mult(), acc, x, node)
+                return acc
             if f.path == "functools.reduce":
                 fn_, seq = args[0], args[1]
                 if seq is TOP:
@@ -2168,3 +2201,28 @@ def _is_generator_uncached(fn):
             continue
         stack.extend(ast.iter_child_nodes(n))
     return False
+
+
+# ---------------------------------------------------------------------------------- xarray call spellings
+XR_MAPPING_PARAM = {"isel": "indexers", "sel": "indexers", "rename": "new_name_or_name_dict", "pad": "pad_width", "assign_coords": "coords", "chunk": "chunks",
+                    "expand_dims": "dim", "rename_dims": "dims_dict", "rename_vars": "name_dict", "swap_dims": "dims_dict", "roll": "shifts", "shift": "shifts"}
+XR_OWN_KEYWORDS = {"isel": {"drop", "missing_dims"}, "sel": {"method", "tolerance", "drop"}, "rename": set(),
+                   "pad": {"mode", "stat_length", "constant_values", "end_values", "reflect_type", "keep_attrs"}, "assign_coords": set(),
+                   "chunk": {"name_prefix", "token", "lock", "inline_array", "chunked_array_type", "from_array_kwargs"}, "expand_dims": {"axis", "create_index_for_new_dim"},
+                   "roll": {"roll_coords"}, "shift": {"fill_value"}}
+
+
+def xr_mapping_arg(method: str, args, kwargs):
+    """The {name: value} argument of an xarray method, whether it is given positionally, under its own keyword
+    (isel(indexers=...), rename(new_name_or_name_dict=...), pad(pad_width=...)) or as **kwargs named after the dimensions."""
+    kwargs = dict(kwargs)
+    pname = XR_MAPPING_PARAM.get(method)
+    if args and isinstance(args[0], dict):
+        return dict(args[0])
+    if pname and isinstance(kwargs.get(pname), dict):
+        return dict(kwargs[pname])
+    if args:
+        return None
+    own = XR_OWN_KEYWORDS.get(method, set()) | ({pname} if pname else set())
+    rest = {k: v for k, v in kwargs.items() if k not in own}
+    return rest or None
